@@ -495,6 +495,19 @@ pub fn run(ctx: &Ctx) -> i32 {
             neighbouring_settings_case(st, &tcs, s.normalised(), flag);
         });
     }
+    // the same, with one long test case (size-dependent caches): 300 ... 1100 graphemes, repetition conversion on
+    {
+        let lens: &[usize] = if ctx.thorough { &[260, 300, 520, 700, 1030, 1100, 2060] } else { &[300, 520, 1030] };
+        let toggles: &[u32] = if ctx.thorough { &[CAP, VERB, COLOR, CI, NOEND] } else { &[CAP, VERB, COLOR] };
+        let n = lens.len() * toggles.len();
+        par_for(&ctx.run, n, |i, st| {
+            let len = lens[i % lens.len()];
+            let flag = toggles[i / lens.len()];
+            let tc = format!("{}{}", "ab".repeat(len / 2), gen::boundary_case(i % gen::JUNCTIONS.len(), 40, 0, 5));
+            st.count("long_neighbouring_settings_pairs");
+            neighbouring_settings_case(st, &[tc], Settings::new(REP | if i % 2 == 0 { 0 } else { NOSTART }).normalised(), flag);
+        });
+    }
     // prefixes that fold into shared trie states (edge insertion order inside one equivalence class)
     {
         let n = if ctx.thorough { 600_000 } else { 60_000 };
